@@ -7,11 +7,14 @@ pub const NS_A: &str = "urn:A";
 pub const NS_B: &str = "urn:B";
 pub const NS_C: &str = "http://example.com/c";
 pub const NS_HOSTILE: &str = "urn:x&y\"z<w";
+pub const NS_SPACED: &str = "urn:sp ace d";
 
 pub const LOCALS: &[&str] = &[
     "a", "b", "c", "e", "x", "y", "él", "a-b", "a.b", "_u", "n0", "A", "ab1", "xmlns", "xmlnsx", "id", "space",
+    // prefix + local name concatenations that coincide: p:ab / pa:b / pab, n0:a / n0a, q:b / qb
+    "ab", "pab", "n0a", "qb",
 ];
-pub const PREFIXES: &[&str] = &["p", "q", "r", "n0", "n1"];
+pub const PREFIXES: &[&str] = &["p", "q", "r", "n0", "n1", "pa"];
 
 #[derive(Clone, Copy, PartialEq, Eq, Debug)]
 pub enum TextProfile {
@@ -60,6 +63,8 @@ pub struct GenCfg {
     pub max_attrs: usize,
     pub max_decls: usize,
     pub str_len: usize,
+    /// one text / attribute value in ~300 is blown up to 4 094 - 12 000 bytes (buffer boundaries)
+    pub long_strings: bool,
 }
 
 impl Default for GenCfg {
@@ -75,6 +80,7 @@ impl Default for GenCfg {
             allow_cr: true,
             allow_adjacent_text: false,
             allow_empty_text: false,
+            long_strings: true,
             xml_space: false,
             xml_id: false,
             pct_unns_under_default: 0,
@@ -151,13 +157,40 @@ pub fn plain_string(rng: &mut Rng, min: usize, max: usize) -> String {
     s
 }
 
+/// repeat `s` up to a length around a power-of-two buffer boundary
+pub fn blow_up(rng: &mut Rng, s: &str) -> String {
+    let unit = if s.is_empty() { "ab" } else { s };
+    let target = *rng.pick(&[4094usize, 4095, 4096, 4097, 5000, 8191, 8192, 8193, 12000]);
+    let mut out = String::with_capacity(target + unit.len());
+    while out.len() + unit.len() <= target {
+        out.push_str(unit);
+    }
+    while out.len() < target {
+        out.push('z');
+    }
+    out
+}
+
+pub fn maybe_long(rng: &mut Rng, cfg: &GenCfg, s: String) -> String {
+    if cfg.long_strings && !crate::engine::legs_mode() && rng.chance(1, 300) {
+        blow_up(rng, &s)
+    } else {
+        s
+    }
+}
+
 pub fn gen_text(rng: &mut Rng, cfg: &GenCfg) -> String {
     let min = if cfg.allow_empty_text && rng.chance(1, 20) { 0 } else { 1 };
-    match cfg.text {
+    let s = match cfg.text {
         TextProfile::Hostile => hostile_string(rng, min, cfg.str_len, cfg.allow_cr),
         TextProfile::Brackets => bracket_string(rng, min, cfg.str_len),
         TextProfile::Whitespace => whitespace_string(rng, min, cfg.str_len.min(5)),
         TextProfile::Plain => plain_string(rng, min, cfg.str_len),
+    };
+    if s.is_empty() {
+        s
+    } else {
+        maybe_long(rng, cfg, s)
     }
 }
 
@@ -209,6 +242,10 @@ pub fn gen_local(rng: &mut Rng) -> String {
 pub fn ns_pool(rng: &mut Rng, cfg: &GenCfg) -> String {
     if cfg.pct_hostile_ns > 0 && rng.chance(cfg.pct_hostile_ns, 100) {
         return NS_HOSTILE.to_string();
+    }
+    // a URI with spaces in it: the renderer may spell each as a literal TAB / LF / CR (attribute-value normalisation)
+    if rng.chance(1, 16) {
+        return NS_SPACED.to_string();
     }
     rng.pick(&[NS_A, NS_A, NS_B, NS_B, NS_C, XHTML_NS, SVG_NS]).to_string()
 }
@@ -495,6 +532,7 @@ impl<'a> DocGen<'a> {
                 TextProfile::Plain => plain_string(self.rng, 0, self.cfg.str_len),
                 _ => hostile_string(self.rng, 0, self.cfg.str_len, self.cfg.allow_cr),
             };
+            let v = maybe_long(self.rng, &self.cfg, v);
             e.attrs.push((q, v));
         }
         if self.cfg.xml_space && self.rng.chance(1, 4) {
